@@ -283,11 +283,33 @@ def run(R):
     R.assumptions += ['the per-event forward task (C01) and the pair likelihood are replaced by integer-coded stubs in the joint correspondence '
                       'run: what is checked there is the summation, the pair loop, the station intersection and the minimum-count rule, with '
                       'combine=True and return_zero=True (the zero-filtering branches are exercised by C01/C07 only)',
-                      'the zero-noise limit of the scale estimator is judged on the implementation (errors 1e-2, 1e-4, 1e-6), not proved',
+                      'the per-station estimate is regenerated from scale_estimator (py_scale_mu) and its distance from the noise-free ratio is '
+                      'bounded by a theorem for positive amplitudes, ratio and errors; the combination over stations of such estimates is the '
+                      'inverse-variance theorem; the zero-noise behaviour of the whole estimator is additionally judged on the implementation',
                       'binary64 +, *, /, sqrt are correctly rounded in numpy and in the kernel primitive floats (bit-exact combine_mu)']
     jfail, jbad = joint_run(R, inv, R.n(300, 6000))
     cfail = combine_run(R, pr, R.n(400, 8000))
     sbad = scale_oracle(R, pr, R.n(60, 1500))
+    # the regenerated per-station estimate (Gen/Kernels.v, py_scale_mu / py_scale_s) against the implementation, and the proved bound
+    from harness import gen
+    from harness.tv import validate_defs
+    dk = R.defs(gen.gen_kernels)
+    if dk:
+        def one(which):
+            def f(z, mx, my, px, py):
+                mu, s_ = pr.scale_estimator(np.array([[z]]), np.array([[mx]]), np.array([[my]]), np.array([[px]]), np.array([[py]]))
+                return [float(np.asarray(mu if which == 0 else s_).flatten()[0])]
+            return f
+        argg = lambda rng: [10 ** rng.uniform(-1, 1), rng.uniform(0.2, 3), rng.uniform(0.2, 3), 10 ** rng.uniform(-3, -0.3), 10 ** rng.uniform(-3, -0.3)]
+        validate_defs(R, [(dk['py_scale_mu'], one(0), argg), (dk['py_scale_s'], one(1), argg)], R.n(200, 4000), tol=1e-9)
+        for i in range(R.n(200, 4000)):
+            z, mx, my, px, py = argg(R.rng)
+            est = one(0)(z, mx, my, px, py)[0]
+            bound = (py * py * my * my * z * z + px * px * mx * mx) / (mx * my * z) + 2 * math.sqrt(2 / math.pi) * py * mx / (my * z)
+            R.count(('scale-bound', i))
+            if not abs(est - my * z / mx) <= bound * (1 + 1e-9) + 1e-12:
+                sbad = sbad or {'check': 'proved-bound-on-the-implementation', 'z': z, 'mu_x': mx, 'mu_y': my, 'errors': [px, py], 'estimate': est,
+                                'noise_free_ratio': my * z / mx, 'bound': bound}
     lrec = location_probe(R, inv)
     if lrec is not None:
         if not (lrec.get('tied') and R.known_finding('location_samples_tie_events',
